@@ -5,6 +5,7 @@
    primitives and this driver fills it with closures that ask a primitive server (the Rust harness,
    `harness primserver`, real RustCrypto) over a pipe. *)
 open Model
+type string = Stdlib.String.t   (* Model extracts Coq's `string` (Model/Config.v); keep OCaml's name for OCaml's type *)
 
 (* ---------- conversions between OCaml values and the extracted inductive numbers ---------- *)
 let n_double = function N0 -> N0 | Npos p -> Npos (XO p)
@@ -274,6 +275,11 @@ let run_vmcli uuid opt sec cmd addr sess ops =
        | _ -> dead := true; Some (Printf.sprintf "%s [%s]" (fstatus_str fs) its))) (String.split_on_char ';' ops) in
   String.concat " | " outs
 
+(* C16 config component: ASCII text <-> byte lists *)
+let text_of (l : n list) : string = String.init (List.length l) (fun i -> Char.chr (int_of_n (List.nth l i) land 255))
+let bytes_of_text (s : string) : n list = List.init (String.length s) (fun i -> n_of_int (Char.code s.[i]))
+let bit b = if b then "1" else "0"
+
 let run_case (fields : string list) : string =
   match fields with
   | "vmbody" :: opt :: sec :: role :: sess :: ops :: _ -> run_vmbody opt sec role sess ops
@@ -308,6 +314,37 @@ let run_case (fields : string list) : string =
     (match recognize_http (unhex m) (unhex t) with
      | Ok (PHttp a) -> "OK H " ^ addr_str a | Ok (PHttps a) -> "OK S " ^ addr_str a
      | Err _ -> "ERR" | Panic -> "PANIC")
+  | "cfgcipher" :: name :: _ -> (match q_cipher (unhex name) with Some v -> "OK " ^ text_of v | None -> "ERR")
+  | "cfgproto" :: name :: _ -> (match q_protocol (unhex name) with Some v -> "OK " ^ text_of v | None -> "ERR")
+  | "cfgmode" :: name :: _ ->
+    (match q_mode (unhex name) with
+     | Some (v, ((t, u), q)) -> Printf.sprintf "OK %s tcp=%s udp=%s quic=%s" (text_of v) (bit t) (bit u) (bit q)
+     | None -> "ERR")
+  | "cfgkind" :: variant :: _ ->
+    let rn = function Ok n -> string_of_int (int_of_n n) | _ -> "PANIC" in
+    (match q_kind (bytes_of_text variant) with
+     | Some (((a, e), tag), algo) -> Printf.sprintf "2022=%s eih=%s tag=%s algo=%s" (bit a) (bit e) (rn tag) (rn algo)
+     | None -> "MODEL-UNKNOWN-VARIANT")
+  | "cfgobj" :: _side :: c :: p :: m :: ssl :: ws :: quic :: _ ->
+    let opt x = if x = "ABSENT" then None else Some (unhex x) in
+    (match q_object (opt c) (unhex p) (opt m) with
+     | Some ((c, p), m) -> Printf.sprintf "OK %s %s %s ssl=%s ws=%s quic=%s" (text_of c) (text_of p) (text_of m) ssl ws quic
+     | None -> "ERR")
+  | "cfgkdf" :: n :: pw :: _ ->
+    (match q_kdf prims (n_of_int (int_of_string n)) (unhex pw) with Ok k -> "OK " ^ hx k | Err _ -> "ERR" | Panic -> "PANIC")
+  | "cfgb64" :: t :: _ -> (match q_b64 (unhex t) with Some v -> "OK " ^ hx v | None -> "ERR")
+  | "cfgkeys" :: n :: pw :: _ ->
+    (match q_keys (n_of_int (int_of_string n)) (unhex pw) with
+     | Some (k, ik) -> Printf.sprintf "OK %s %s" (hx k) (if ik = [] then "-" else String.concat "," (List.map hx ik))
+     | None -> "ERR")
+  | "cfguser" :: n :: pw :: _ -> (match q_user (n_of_int (int_of_string n)) (unhex pw) with Some k -> "OK " ^ hx k | None -> "ERR")
+  | "cfgpath" :: sd :: nt :: variant :: pw :: _ ->
+    (match q_path prims (bytes_of_text sd) (bytes_of_text nt) (bytes_of_text variant) (unhex pw) with
+     | Some (Some n, KeyOk (_, _)) -> Printf.sprintf "N=%d OK" (int_of_n n)
+     | Some (Some n, KeyError) -> Printf.sprintf "N=%d ERR" (int_of_n n)
+     | Some (Some n, KeyPanic) -> "PANIC"
+     | Some (_, NoKey) | Some (None, _) -> "N=- NOKEY"
+     | None -> "MODEL-UNKNOWN-VARIANT")
   | "sstcp" :: kind :: key :: ikeys :: users :: mode :: salt :: addr :: now :: ops :: _ -> run_sstcp kind key ikeys users mode salt addr now ops
   | "s5enc" :: a :: _ -> let a = parse_addr a in Printf.sprintf "OK %s %d" (hx (s5_encode a)) (int_of_n (s5_length a))
   | "s5dec" :: b :: _ -> show_res (fun (a, rest) -> addr_str a ^ " " ^ hx rest) (s5_decode (unhex b))
